@@ -450,6 +450,15 @@ func C07(r *ev.Run) {
 				if ti%5 != 0 {
 					continue
 				}
+				// trees whose sizes scale with the block size reach gigabytes at 1 MiB blocks; sixteen of them side by side do
+				// not fit into memory: beyond 64 MiB of content a tree is only built with 4 KiB blocks
+				var content int64
+				for _, b := range treesBy[bs][ti].Files {
+					content += int64(len(b))
+				}
+				if content > 64<<20 {
+					continue
+				}
 			}
 			for ci, comp := range comps {
 				for _, nofrag := range []bool{false, true} {
